@@ -292,7 +292,12 @@ func c18Store(r *Rng) []KV {
 var c18Opaques = []string{"value = 'x'", "int(value) > 1", "value ~= '^[0-9]'", "value != 'v'", "is_int(value)"}
 
 func genC18(seed uint64, i int, tier string) *Scenario {
-	r := NewRng(seed)
+	return genC18Case(NewRng(seed), i, tier, 0.08)
+}
+
+// genC18Case: bytesProb is the probability of a byte-level alphabet (also used
+// by other properties' generators, which judge the same statements their way).
+func genC18Case(r *Rng, i int, tier string, bytesProb float64) *Scenario {
 	var pc PinCase
 	if tier == "thorough" {
 		e := c18Enum()
@@ -381,7 +386,7 @@ func genC18(seed uint64, i int, tier string) *Scenario {
 			sc.Cfg.Batch = pick(r, []int{64, 128, 129, 256, 1000})
 		}
 	}
-	if tier != "thorough" && r.Chance(0.08) {
+	if tier != "thorough" && r.Chance(bytesProb) {
 		// byte-level alphabets: keys and literals are byte strings, not text; the
 		// order-preserving relabelling keeps every region relation of the case
 		ab := pick(r, [][3]string{{"a", "b", "\xff"}, {"\x00", "a", "\xff"}, {"\x7f", "\x80", "\xff"}, {"a", "\xfe", "\xff"},
